@@ -757,10 +757,17 @@ func TestC19HttpE2E(t *testing.T) {
 		idx++
 	}
 
-	// a Write whose POST is parked (nobody reads on the far side) returns once its context is done
+	// a Write whose POST is parked (nobody reads on the far side) returns once its context is done - BECAUSE of its
+	// context. The far end runs on a fake clock that does not move, so nothing but the context can end the POST.
+	// (With a real clock its idle cleaner answers 503 after a minute, and since Write reports that status as an error
+	// "Write returned an error" would say nothing about the context: seeded/C19_4 slipped through that way for the
+	// time of one trial.) Should Write not come back, the wait is bounded, the fake clock is then moved so that the far
+	// end releases the request, and the verdict is read off the KIND of error: only the context's own counts.
 	if want(idx) {
 		em.Marker("begin", idx)
-		gohC := goat.NewGoatOverHttp(func(string, goat.RpcReadWriter) {}, func(string) (string, error) { return "nobody:1", nil })
+		fcC := clockwork.NewFakeClockAt(time.Unix(trEpoch, 0))
+		gohC := goat.NewGoatOverHttp(func(string, goat.RpcReadWriter) {}, func(string) (string, error) { return "nobody:1", nil },
+			goat.WithClock(fcC), goat.WithConnectionCleanupInterval(time.Second), goat.WithConnectionTimeout(time.Second))
 		srvC := httptest.NewServer(gohC)
 		conn := gohA.NewConnection(strings.TrimPrefix(srvC.URL, "http://"))
 		ctx, cancel := context.WithCancel(context.Background())
@@ -775,10 +782,24 @@ func TestC19HttpE2E(t *testing.T) {
 			stillBlocked = true
 		}
 		cancel()
-		err := <-done // blocks for ever if Write ignores its context: the rig's timeout reports it
+		var err error
+		released := false
+		select {
+		case err = <-done:
+		case <-time.After(20 * time.Second): // Write ignores its context: let the far end answer, so that the case ends
+			released = true
+			for waiting := true; waiting; {
+				fcC.Advance(2 * time.Second)
+				select {
+				case err = <-done:
+					waiting = false
+				case <-time.After(2 * time.Millisecond):
+				}
+			}
+		}
 		em.Emit(Rec{Idx: idx, Kind: "http-write-ctx", Desc: "Write parked in a POST that nobody answers; context cancelled",
-			Obs: map[string]any{"parked_before_cancel": stillBlocked, "err": fmt.Sprint(err)},
-			Coq: fmt.Sprintf("CAssert 1 %s", coqBool(err != nil)), Tags: []string{"http:write-ctx"}})
+			Obs: map[string]any{"parked_before_cancel": stillBlocked, "err": fmt.Sprint(err), "released_by_far_end": released},
+			Coq: fmt.Sprintf("CAssert 1 %s", coqBool(errors.Is(err, context.Canceled))), Tags: []string{"http:write-ctx"}})
 		em.Marker("end", idx)
 		gohC.Cancel()
 		srvC.CloseClientConnections()
